@@ -27,6 +27,10 @@ m = {
 for p in props:
     if p in checks:
         t = texts.get(p, {})
+        spec = checks[p]
+        bounds = "; ".join("%s: %s" % (k, v) for k, v in spec.get("bounds", {}).items())
+        outside = "; ".join(spec.get("outside_bounds", []))
+        harn = ", ".join(sorted(set(h["fn"] for h in spec["harnesses"])))
         m["checks"].append({
             "property_id": p,
             "quick_cmd": "./check %s quick" % p,
@@ -35,10 +39,10 @@ for p in props:
             "replay_cmd_template": "./check replay {path}",
             "engine": "flytsym",
             "level_claimed": {"category": "model_checking",
-                              "text": t.get("level_text", "bounded symbolic model checking of the real SSA: every assertion is decided by z3 for all values of the symbolic inputs on every explored path inside the stated bounds"),
-                              "design_ref": t.get("design_ref", "DESIGN.md §4 " + p)},
-            "level_note": t.get("level_note", "trusted: go/ssa construction, the engine's SSA semantics (validated each run by native witness replays), z3, the environment stubs of DESIGN.md §3.7"),
-            "technique": t.get("technique", "symbolic execution of go/ssa + SMT (z3), bounded; native replay of counterexamples"),
+                              "text": t.get("level_text", "bounded symbolic model checking of the go/ssa form of /repo (regenerated each run): the harnesses " + harn + " are executed symbolically; every assertion is an SMT query (z3, sampled cross-check with cvc5) over all values of the symbolic inputs on every explored path and, for concurrent harnesses, every schedule at synchronisation granularity. Bounds - " + bounds + ". Outside the bounds - " + outside + ". Counterexamples are re-executed concretely in the engine and replayed natively (go test -overlay) before being reported; passing witness paths are replayed natively on every run."),
+                              "design_ref": t.get("design_ref", "DESIGN.md §A.4 (" + p + " oracle as implemented), §4 " + p + " (design)")},
+            "level_note": t.get("level_note", "trusted: go/ssa construction; the engine's SSA semantics and environment stubs (validated on every run by native replays of witness paths and at setup by six ported repository tests); z3. Assumed: " + "; ".join(spec.get("assumptions", [])[:6])),
+            "technique": t.get("technique", "solver-based bounded checking of the real code: symbolic execution of go/ssa -> SMT-LIB2 (z3; cvc5 cross-check), schedules forked with sleep sets; native replay"),
         })
     else:
         m["not_applicable"].append({"property_id": p, "reason": texts.get(p, {}).get("na_reason", "check not yet built in this session (engine stage pending); see DESIGN.md §8")})
